@@ -905,4 +905,9 @@ class OmegaHOL:
             premises, _ = pt_norm.prop.strip_implies()
             for p in premises:
                 pt_norm = pt_norm.implies_elim(proofterm.ProofTerm.assume(p))
+            # the hypotheses are the normal forms of the given inequalities: replace each by the
+            # inequality it came from, using the proof  ineq ⊢ normal form  computed in __init__
+            for ineq, pt in self.norm_pts.items():
+                if pt.prop != ineq and pt.prop in pt_norm.hyps:
+                    pt_norm = pt_norm.implies_intr(pt.prop).implies_elim(pt)
             return pt_norm
